@@ -17,9 +17,10 @@ type subscriptionID uint
 type Subscription[T any] struct {
 	id subscriptionID
 
-	mu    sync.Mutex
-	topic *Topic[T]
-	ch    <-chan T
+	mu      sync.Mutex
+	topic   *Topic[T]
+	ch      <-chan T
+	closing chan struct{} // closed when Close starts, see Topic.Publish
 }
 
 // Channel returns the chan that can be used to receive values from this
@@ -56,6 +57,9 @@ func (s *Subscription[T]) Close() {
 		return // already closed
 	}
 
+	// Release a Publish that is blocked on sending to us while it holds the
+	// topic lock that unsubscribeID needs.
+	close(s.closing)
 	s.topic.unsubscribeID(s.id)
 	s.ch = nil
 	s.topic = nil
